@@ -16,6 +16,39 @@ import (
 type Op struct {
 	K string `json:"k"`
 	N int    `json:"n,omitempty"`
+	// Via (writes only): "" = w.Write(p); "copy" = io.Copy(w, src) from a plain
+	// io.Reader delivering p in pieces of at most C bytes and io.EOF on a call of
+	// its own; "copy-eof" = the same, the last piece returned together with
+	// io.EOF (as flate, tar or HTTP body readers do). Whether the writer has a
+	// ReadFrom method of its own decides which code io.Copy runs.
+	Via string `json:"via,omitempty"`
+	C   int    `json:"c,omitempty"`
+}
+
+// plainSource is the io.Reader behind the "copy" ops: no WriteTo, no other method.
+type plainSource struct {
+	p       []byte
+	c       int
+	withEOF bool
+}
+
+func (s *plainSource) Read(q []byte) (int, error) {
+	if len(s.p) == 0 {
+		return 0, io.EOF
+	}
+	n := len(s.p)
+	if s.c > 0 && n > s.c {
+		n = s.c
+	}
+	if n > len(q) {
+		n = len(q)
+	}
+	copy(q, s.p[:n])
+	s.p = s.p[n:]
+	if len(s.p) == 0 && s.withEOF {
+		return n, io.EOF
+	}
+	return n, nil
 }
 
 // WCase is a writer-history scenario: one writer, one payload, one call
@@ -271,7 +304,17 @@ func runWriter(c *WCase, x *sim.Ctx) *WResult {
 				p = data[:n]
 			}
 			cr.Want = len(p)
-			cr.Panic = guard(func() { cr.N, cr.Err = w.Write(p) })
+			if op.Via != "" {
+				src := &plainSource{p: p, c: op.C, withEOF: op.Via == "copy-eof"}
+				cr.Panic = guard(func() {
+					var n64 int64
+					n64, cr.Err = io.Copy(w, src)
+					cr.N = int(n64)
+				})
+				x.Probe("write-through-io.Copy")
+			} else {
+				cr.Panic = guard(func() { cr.N, cr.Err = w.Write(p) })
+			}
 			if !closed && cr.Panic == nil {
 				k := cr.N
 				if k < 0 {
@@ -382,6 +425,16 @@ func genHistory(r *sim.Rng, n int, flush bool, marks []int, tail bool) []Op {
 	}
 	if flush && r.Chance(1, 3) {
 		ops = append(ops, Op{K: "f"})
+	}
+	if r.Chance(1, 8) {
+		// some or all of the writes go through io.Copy from a plain reader
+		all := r.Bool()
+		for i := range ops {
+			if ops[i].K == "w" && ops[i].N > 0 && (all || r.Chance(1, 3)) {
+				ops[i].Via = sim.Pick(r, []string{"copy", "copy-eof", "copy-eof"})
+				ops[i].C = sim.Pick(r, []int{0, 0, 1, 7, 4096, 32768, 65536, 70000})
+			}
+		}
 	}
 	ops = append(ops, Op{K: "c"})
 	if tail {
